@@ -23,8 +23,8 @@ func init() {
 				"element exactly when no value variable exists, and a two-variable range over an index-less ranger reaches a no-return error. (C05.pool) pooled rangers: Setup assigns every field, no " +
 				"use after cleanup, objects come from the pool, every pool has a reset discipline. (C05.rangers) each built-in Range advances its cursor exactly once on the non-end path and not at " +
 				"all on the end path, and reads the element before advancing. (C05.elseif) `else if` builds an else list holding exactly the nested if without consuming another {{end}}; range does " +
-				"not allow else-if.",
-			NotDecided:  "ints(a,b) arithmetic, map iteration order, channel blocking, user-defined Rangers, which values are truthy beyond the definition of isTrue (C04.lit).",
+				"not allow else-if. (C05.truth) every return of isTrue equals v.IsValid() && !v.IsZero() under the facts of its path, so the branch an if chain takes depends on nothing but `valid and not the zero value` (false, 0, \"\", nil).",
+			NotDecided:  "ints(a,b) arithmetic, map iteration order, channel blocking, user-defined Rangers, reflect.Value.IsZero itself (trusted: zero value of the kind).",
 			Assumptions: []string{"a Ranger's Range() result is meaningful only until the next call (interface contract)"},
 			Trusted:     commonTrusted,
 		},
@@ -40,6 +40,9 @@ func init() {
 			{Name: "slice ranger keeps its cursor from the previous use", File: "ranger.go", Old: "func (r *sliceRanger) Setup(v reflect.Value) {\n\tr.i = 0\n\tr.v = v\n}", New: "func (r *sliceRanger) Setup(v reflect.Value) {\n\tr.v = v\n}", Rule: "C05.pool"},
 			{Name: "else-if consumes a second {{end}}", File: "parse.go", Old: "\t\t\telseList = t.newList(next.Position())\n\t\t\telseList.append(t.ifControl())\n\t\t\t// Do not consume the next item - only one {{end}} required.", New: "\t\t\telseList = t.newList(next.Position())\n\t\t\telseList.append(t.ifControl())\n\t\t\t_, next = t.itemList(nodeEnd)", Rule: "C05.elseif"},
 			{Name: "two-variable range over an index-less ranger silently binds", File: "eval.go", Old: "\t\t\t\tif isSet && len(node.Set.Left) > 1 {\n\t\t\t\t\t// two-vars assignment with ranger that doesn't provide an index\n\t\t\t\t\tnode.error(errors.New(\"two-var range over ranger that does not provide an index\"))\n\t\t\t\t} else if isSet {", New: "\t\t\t\tif isSet {", Rule: "C05.bind"},
+			{Name: "numeric fast path truncates fractional floats to false (agent seed C05/1)", File: "eval.go", Old: "func isTrue(v reflect.Value) bool {\n", New: "func isTrue(v reflect.Value) bool {\n\tif canNumber(v.Kind()) {\n\t\treturn castInt64(v) != 0\n\t}\n", Rule: "C05.truth"},
+			{Name: "equivalent: isTrue written with an early return", File: "eval.go", Old: "\treturn v.IsValid() && !v.IsZero()", New: "\tif !v.IsValid() {\n\t\treturn false\n\t}\n\tif v.IsZero() {\n\t\treturn false\n\t}\n\treturn true", Rule: "-"},
+			{Name: "equivalent: isTrue as negated disjunction", File: "eval.go", Old: "\treturn v.IsValid() && !v.IsZero()", New: "\treturn !(!v.IsValid() || v.IsZero())", Rule: "-"},
 			{Name: "condition evaluated twice", File: "eval.go", Old: "\t\t\tif isTrue(st.evalPrimaryExpressionGroup(node.Expression)) {\n\t\t\t\tifReturn = st.executeList(node.List)", New: "\t\t\tif isTrue(st.evalPrimaryExpressionGroup(node.Expression)) && isTrue(st.evalPrimaryExpressionGroup(node.Expression)) {\n\t\t\t\tifReturn = st.executeList(node.List)", Rule: "C05.if"},
 		},
 	})
@@ -263,6 +266,7 @@ func runC05(c *an.Ctx) {
 	rangerPools(c, "C05.pool")
 	c05rangers(c)
 	c05elseif(c)
+	truthRule(c, "C05.truth")
 }
 
 func min3(a, b, d int) int {
